@@ -112,7 +112,8 @@ pub fn run(f: &[&str]) -> String {
                 out.push_str(&format!("wo={}\tvars={}\tnwo={}", res(r), strs(e.var_names()), e.verif_structure().0.len()));
                 // consuming evaluation of the UNFOLDED expression (literal nodes still carry unary operators)
                 let rc = e.eval_vec(v.clone());
-                let ri = e.eval_iter(v.clone().into_iter());
+                // through an adaptor whose size hint is not exact: the outcome must not depend on the hint
+                let ri = e.eval_iter(v.clone().into_iter().filter(|_| true));
                 out.push_str(&format!("\twcons_nf={}\twiter_nf={}", res_nf(&rc, &t), res_nf(&ri, &t)));
             }
         }
